@@ -332,6 +332,17 @@ def roots(v, acc=None):
     return acc
 
 
+def flatten_phi(v, cond=True):
+    """[(path condition, leaf)] of a (nested) case split"""
+    v0 = core(v)
+    if isinstance(v0, PhiV):
+        out = []
+        for c, x in v0.alts:
+            out.extend(flatten_phi(x, And(cond, c)))
+        return out
+    return [(cond, v)]
+
+
 def restrict(v, cond):
     """The value `v` on the paths where `cond` holds: every case split inside `v` that has an alternative guarded by
     exactly `cond` is replaced by that alternative (correlated splits created by binding a pattern against one
@@ -560,7 +571,15 @@ class Interp:
         sink.items.append(item)
 
     def cur_fn(self):
-        return self.fn_stack[-1] if self.fn_stack else "?"
+        """the function an event is attributed to: the innermost function on the stack that the rules know (a helper
+        introduced by a later change is transparent: what it does is done by its known caller)"""
+        if not self.fn_stack:
+            return "?"
+        kn = known_fns(self.crate.name)
+        for f in reversed(self.fn_stack):
+            if f in kn or f not in self.inlined:
+                return f
+        return self.fn_stack[0]
 
     # -- entry points -----------------------------------------------------------
     def run_fn(self, name, args=None):
@@ -737,6 +756,15 @@ class Interp:
             return Or(*fs)
         if k == "Tuple":
             v0 = core(v)
+            if isinstance(v0, PhiV) and not p["rest"]:
+                flat_ = flatten_phi(v0)
+                if flat_ and all(isinstance(core(x), TupleV) and len(core(x).items) == len(p["pats"]) for _, x in flat_):
+                    # destructuring a case split of tuples: each component is the (correlated) case split of that component
+                    fs = []
+                    for i, sp in enumerate(p["pats"]):
+                        comp = PhiV([(c_, core(x).items[i]) for c_, x in flat_])
+                        fs.append(self.bindpat(sp, comp, fr))
+                    return And(*fs)
             fs = []
             for i, sp in enumerate(p["pats"]):
                 sub = v0.items[i] if isinstance(v0, TupleV) and i < len(v0.items) and not p["rest"] else Sel(v, ".%d" % i)
@@ -762,11 +790,12 @@ class Interp:
                 return self.eq_formula(v, Def(defp, dk))
             is_variant = "Variant" in dk
             v0 = core(v)
-            if is_variant and isinstance(v0, PhiV) and all(isinstance(core(x), StructV) and core(x).variant for _, x in v0.alts):
+            flat_ = flatten_phi(v0) if is_variant and isinstance(v0, PhiV) else None
+            if flat_ and all(isinstance(core(x), StructV) and core(x).variant for _, x in flat_):
                 # a scrutinee that is a case split over known constructors: distribute the pattern over the cases
                 fs = []
                 binds = {}
-                for c_, x in v0.alts:
+                for c_, x in flat_:
                     tmp = {}
                     f_ = self.bindpat(p, x, tmp)
                     fs.append(And(c_, f_))
@@ -1493,7 +1522,9 @@ class Interp:
         if last == "bytes" and len(args) == 1 and "impl str>::bytes" in callee:
             return Via("bytes", a0, inst or callee)
         if last in TRANSPARENT and len(args) == 1:
-            return Via(last, a0, inst or callee)
+            via_ = Via(last, a0, inst or callee)
+            via_.node = n
+            return via_
         if last in ("try_from", "try_into") and len(args) == 1:
             # std model: a checked conversion between unsigned integer types succeeds iff the value fits
             m_ = _INT_TRY.match(inst or callee)
@@ -1629,6 +1660,10 @@ class Interp:
     def _some(self, c0):
         if isinstance(c0, StructV) and c0.variant:
             return c0.variant == "Some"
+        if isinstance(c0, PhiV):
+            flat_ = flatten_phi(c0)
+            if all(isinstance(core(x), StructV) and core(x).variant in ("Some", "None") for _, x in flat_):
+                return Or(*[c for c, x in flat_ if core(x).variant == "Some"])
         return atom("some", c0.r())
 
     def _local_target(self, inst, callee):
